@@ -20,4 +20,5 @@ SPEC = dict(
     require_outcomes=['add:accepted', 'add:cache-full', 'returned:response', 'returned:error:service-status', 'returned:error:receive-timeout', 'returned:error:connection', 'returned:error:bad-data', 'returned:push-config'],
     assumptions=['the canonical key distinguishes all states with different futures'],
     deadline=dict(quick=900, thorough=2700),
+    case_limit=dict(quick=600, thorough=1800),
 )
